@@ -29,7 +29,7 @@ const (
 	fConst
 	fUse
 	fAssign
-	fFuncDecl      // function n(){B}          (function-level lists only)
+	fFuncDecl      // function n(){B}
 	fFuncDeclParam // function n(m){B}
 	fClass         // class n{}
 	fClassMethod   // class n{f(){B}}
@@ -215,9 +215,8 @@ func (r *resolver) declare(list []*sk, s *rscope, funcLevel bool) {
 			r.scopeOf[k] = []*rscope{fs}
 			r.declare(k.b1, fs, true)
 		case fFuncDecl, fFuncDeclParam:
-			if !funcLevel {
-				r.fail("ambiguous") // block-level function declarations: hoisting reading vs ES2022 block scoping
-			}
+			// block-level function declarations hoist to the enclosing function like var: the reading the property
+			// states ("var and function hoisting to the enclosing function ... through sibling and nested blocks")
 			r.declVar(s, k.n, true)
 			fs := newScope(scFunc, s)
 			if k.form == fFuncDeclParam {
@@ -544,11 +543,11 @@ func mentions(list []*sk, x string, direct bool, out *[]byte) {
 	for _, k := range list {
 		decl := byte('u')
 		switch k.form {
-		case fLet, fConst, fLetObj, fLetArr, fClass, fClassMethod, fFuncDecl, fFuncDeclParam:
+		case fLet, fConst, fLetObj, fLetArr, fClass, fClassMethod:
 			if direct {
 				decl = 'd'
 			}
-		case fVar, fVarInit, fForVarOf:
+		case fVar, fVarInit, fForVarOf, fFuncDecl, fFuncDeclParam:
 			decl = 'd' // hoists
 		}
 		blockLike := k.form == fBlock || k.form == fIfBlock || k.form == fForLet || k.form == fForVarOf || k.form == fForConstOf || k.form == fForIn || k.form == fTryCatch || k.form == fTryCatchNoBinding || k.form == fSwitchLet
@@ -877,8 +876,8 @@ func enumSkeletons(forms []skForm, names []string, n int, funcLevel bool, f func
 			if nb == 0 && n != 1 {
 				continue
 			}
-			if (fm == fFuncDecl || fm == fFuncDeclParam) && !funcLevel {
-				continue
+			if fm == fFuncDeclParam && !funcLevel {
+				continue // block-level function declarations are generated in the parameterless form only (bounds)
 			}
 			for _, nm := range names {
 				ms := []string{""}
